@@ -419,6 +419,9 @@ def stepLine (_ : Unit) (line : String) : Unit × String :=
     | [s, i] => (s, i)
     | [s] => (s, "")
     | _ => (line, "")
+  -- stress lines (real goroutines racing on several Ps) are judged by the property oracle only: the model allows
+  -- every outcome of the race
+  if script.startsWith "stress " then ((), "ok oracle-only") else
   match parseScript script with
   | none => ((), "reject bad-script")
   | some sc =>
